@@ -15,6 +15,9 @@ def run(ctx):
     ctx.explanation = EXPL
     ctx.level = 'other'
     ctx.assumptions = ['bilinearity of the pairing (C01) is not decided here']
+    from .. import schemespec
     for cfg, prog in ctx.programs().items():
         schemes.rule_lqibe(ctx, cfg, prog)
         scalar.rule_dispatch(ctx, cfg, prog)
+        ns = schemespec.rule_scheme(ctx, cfg, prog, which=['lqibe::setup', 'lqibe::keygen', 'lqibe::encrypt', 'lqibe::decrypt'])
+        ctx.floor('R-SCHEME path segments[%s]' % cfg, ns, 4)
